@@ -101,7 +101,8 @@ def genericize(item, decl, with_where):
     name_end = m.end()
     g = render_decl(decl)
     tys = [p["name"] for p in decl if p["k"] == "ty"]
-    where = f" where {tys[0]}: Default" if (with_where and tys) else ""
+    # (every other where-clause ends in a comma, as rustfmt writes multi-line ones)
+    where = (f" where {tys[0]}: Default" + ("," if (len(item) + len(decl)) % 2 == 0 else "")) if (with_where and tys) else ""
     head, tail = item[:name_end], item[name_end:]
     if not where:
         return head + g + tail, m.group(3)
